@@ -479,6 +479,9 @@ class MarkovNetwork(UndirectedGraph):
 
         graph_copy = nx.Graph(self.edges())
         for node in order:
+            # Nodes without edges need no fill-in edges.
+            if node not in graph_copy:
+                continue
             for edge in itertools.combinations(graph_copy.neighbors(node), 2):
                 graph_copy.add_edge(edge[0], edge[1])
                 edge_set.add(edge)
